@@ -5,7 +5,7 @@
  *   - CURRENT -> MANIFEST -> fold of all edits = files per level (number, size, bounds)
  *   - that fold must equal what "leveldb.sstables" reports (numbers, sizes, levels)
  *   - every table file: size as recorded, entries strictly increasing in internal-key
- *     order (no duplicates), first == smallest, last == largest
+ *     order (no duplicates), all within [smallest, largest] as recorded
  *   - levels >= 1: files ordered and non-overlapping (internal-key order)
  *   - for every user key: versions in a shallower level, or in a level-0 file with a
  *     larger number, are strictly newer than those below / in older level-0 files
@@ -181,13 +181,13 @@ lay_check(ldb_t *db, const char *dbdir, const kcfg_t *cfg, lay_stats_t *stats, c
         ok = 0;
       } else {
         const uint8_t *pool = (const uint8_t *)t.pool.p;
-        if (ikey_cmp(cfg, pool + t.e[0].koff, t.e[0].klen, (uint8_t *)nf->smallest.p, nf->smallest.n) != 0 ||
-            t.e[0].klen != nf->smallest.n || memcmp(pool + t.e[0].koff, nf->smallest.p, nf->smallest.n) != 0) {
-          snprintf(err, en, "table #%llu: first entry is not the recorded smallest key", (unsigned long long)nf->number);
+        /* the property says "within its stated bounds": smallest <= first and last <= largest */
+        if (ikey_cmp(cfg, (uint8_t *)nf->smallest.p, nf->smallest.n, pool + t.e[0].koff, t.e[0].klen) > 0) {
+          snprintf(err, en, "table #%llu: first entry sorts before the recorded smallest key", (unsigned long long)nf->number);
           ok = 0;
         }
-        if (ok && (t.e[t.n - 1].klen != nf->largest.n || memcmp(pool + t.e[t.n - 1].koff, nf->largest.p, nf->largest.n) != 0)) {
-          snprintf(err, en, "table #%llu: last entry is not the recorded largest key", (unsigned long long)nf->number);
+        if (ok && ikey_cmp(cfg, pool + t.e[t.n - 1].koff, t.e[t.n - 1].klen, (uint8_t *)nf->largest.p, nf->largest.n) > 0) {
+          snprintf(err, en, "table #%llu: last entry sorts after the recorded largest key", (unsigned long long)nf->number);
           ok = 0;
         }
         for (e = 0; ok && e < t.n; e++) {
